@@ -357,13 +357,9 @@ class ActionTypeHint(Action):
 
     @staticmethod
     def is_mapping_typehint(typehint):
-        typehint = get_unaliased_type(typehint)
+        typehint = get_optional_arg(get_unaliased_type(typehint))
         typehint_origin = get_typehint_origin(typehint) or typehint
-        if (
-            typehint in mapping_origin_types
-            or typehint_origin in mapping_origin_types
-            or is_optional(typehint, tuple(mapping_origin_types))
-        ):
+        if typehint in mapping_origin_types or typehint_origin in mapping_origin_types:
             return True
         return False
 
